@@ -1,6 +1,7 @@
 package main
 
 import (
+	"bytes"
 	"encoding/json"
 	"fmt"
 	"io"
@@ -256,7 +257,18 @@ func (c13Engine) Run(raw json.RawMessage) (interface{}, error) {
 	log := &evLog{}
 	opts := []pgs.InitOption{pgs.ProtocInput(&countingReader{data: data, log: log}), pgs.ProtocOutput(&recordingWriter{log})}
 	if in.BiDi {
-		opts = append(opts, pgs.BiDirectional())
+		// an InitOption is a value: the same one configures any number of generators. Another
+		// generator in the process is given it first and rendered to completion; the generator under
+		// observation must behave as if it were alone.
+		bidi := pgs.BiDirectional()
+		dreq, _ := proto.Marshal(&plugin_go.CodeGeneratorRequest{FileToGenerate: []string{"decoy.proto"},
+			ProtoFile: []*descriptor.FileDescriptorProto{{Name: proto.String("decoy.proto"), Package: proto.String("decoy"),
+				MessageType: []*descriptor.DescriptorProto{{Name: proto.String("D")}}}}})
+		decoy := pgs.Init(pgs.ProtocInput(bytes.NewReader(dreq)), pgs.ProtocOutput(ioutil.Discard), bidi)
+		decoy.Debugger = pgs.InitMockDebugger()
+		decoy.RegisterModule(&recMod{idx: 0, name: "decoy", log: &evLog{}, md: pgs.InitMockDebugger()})
+		decoy.Render()
+		opts = append(opts, bidi)
 	}
 	if in.Features != nil {
 		f := *in.Features
